@@ -78,7 +78,7 @@ CLAIMED.update({
     technique="static provenance (def-use pairing), exhaustive path enumeration with phi resolution in the gatekeeper, backward value-flow walk, who-may-call",
     ref="DESIGN.md §4 C02"),
   "C09": dict(
-    text="Static path-fact rules on the three membership gatekeepers: for the outbox and reply construct closures every return is shown to be either a NewFailure item (never nil: impostors stay in place as error items) or the item built by NewActivity/NewPost from the element handed in, on a path that knows owner id != nil, accessor() != nil and accessor().String() == id.String(); the "outbox"/"replies"/"comments" collections are shown to be built with the matching closure and the owner's id, Collection.construct to be stored only from the constructor parameter, harvest to deliver construct(elements[k], c.id) at its own slot and to pass construct on to the next page; NewPostFromObject's success return is shown to lie behind a loop over all creators (after the fan-out joined) in which every path back to the loop head knows equal hosts with both ids non-nil, or both ids nil; identifier accessors return validated id fields under their error guards, and id fields are stored only from the constructors' id parameter.",
+    text="Static path-fact rules on the three membership gatekeepers: for the outbox and reply construct closures every return is shown to be either a NewFailure item (never nil: impostors stay in place as error items) or the item built by NewActivity/NewPost from the element handed in, on a path that knows owner id != nil, accessor() != nil and accessor().String() == id.String(); the outbox / replies / comments collections are shown to be built with the matching closure and the owner's id, Collection.construct to be stored only from the constructor parameter, harvest to deliver construct(elements[k], c.id) at its own slot and to pass construct on to the next page; NewPostFromObject's success return is shown to lie behind a loop over all creators (after the fan-out joined) in which every path back to the loop head knows equal hosts with both ids non-nil, or both ids nil; identifier accessors return validated id fields under their error guards, and id fields are stored only from the constructors' id parameter.",
     note="Assumes the ids compared are the validated ids of C02. Not decided: generated worlds end to end; whether string equality of URLs is the right identity.",
     technique="static path facts (dominating comparisons on accepting paths) in gatekeeper closures, wiring/table agreement, path enumeration in the creators loop",
     ref="DESIGN.md §4 C09"),
